@@ -1,0 +1,33 @@
+//go:build verif
+
+package parse
+
+// Exports for the verification harness (/verif, property C03: the textual import pre-scan against what the
+// grammar takes for an import statement). Compiled only with `-tags verif`; adds no behaviour.
+
+// VerifExtractImports runs the import pre-scan of collectSpecs on the content of a file and returns the text it
+// hands to parseImports (the lines it takes for import statements, each terminated by "\n").
+func VerifExtractImports(filename string, content []byte) string {
+	b := extractImports(filename, content)
+	return b.String()
+}
+
+// VerifImport is one import statement as the listener records it (the importDef of parse.go).
+type VerifImport struct {
+	Filename, Appname, Pkg, Mode string
+}
+
+// VerifParseImports runs parseImports - the real lexer, parser and listener - on input as the text of the file
+// filename and returns the import statements found. collectSpecs calls it with the pre-scanned lines; called with
+// the whole text of a file it tells which import statements the full parse of that file sees.
+func VerifParseImports(filename, input string) ([]VerifImport, error) {
+	defs, err := parseImports(importDef{filename: filename}, sourceCtxHelper{filename, ""}, input)
+	if err != nil {
+		return nil, err
+	}
+	out := make([]VerifImport, len(defs))
+	for i, d := range defs {
+		out[i] = VerifImport{d.filename, d.appname, d.pkg, d.mode}
+	}
+	return out, nil
+}
